@@ -24,9 +24,12 @@ struct Ctl {
 
 static CTL: Mutex<Option<Arc<(Mutex<Ctl>, Condvar)>>> = Mutex::new(None);
 
+thread_local! { static HELPER: std::cell::Cell<bool> = const { std::cell::Cell::new(false) }; }
+
 fn point(name: &'static str, key: &[u8]) {
     let Some(ctl) = CTL.lock().unwrap().clone() else { return };
-    if !name.starts_with("c11_sweep") {
+    let lazy = name.starts_with("c11_lazy") && HELPER.with(|h| h.get());
+    if !name.starts_with("c11_sweep") && !lazy {
         return;
     }
     let (m, cv) = &*ctl;
@@ -212,6 +215,229 @@ impl Runner {
     }
 }
 
+/// Lazy retirement (T-sched for ELazySee / ELazyRetire / EIncr): a helper thread increments a counter
+/// whose current generation is expired; it is parked between seeing that and
+/// `retire_expired_if_current`, while this thread renews, deletes or reads the key.
+fn lazy_case(rng: &mut Rng, case: u64, dir: &str, ctl: &Arc<(Mutex<Ctl>, Condvar)>) -> (String, String, String) {
+    let persistent = case % 2 == 0;
+    let path = format!("{dir}/dev/lzy_{}_{case}.feox", std::process::id());
+    let _ = std::fs::remove_file(&path);
+    let mut b = FeoxStore::builder().hash_bits(6).no_memory_limit().enable_ttl(true);
+    if persistent {
+        b = b.device_path(path.clone()).file_size(512 * 4096).enable_caching(case % 4 == 0);
+    }
+    let store = match b.build() {
+        Ok(s) => Arc::new(s),
+        Err(e) => return ("swp".into(), "note".into(), format!("FAIL cannot-open-store {e}")),
+    };
+    let now_ns = || std::time::SystemTime::now().duration_since(std::time::UNIX_EPOCH).unwrap().as_nanos() as u64;
+    let ckey = |k: u64| format!("ck{k:02}").into_bytes();
+    let mut events: Vec<String> = vec!["K1000".into()];
+    let mut results: Vec<String> = Vec::new();
+    let mut verdict = "ok".to_string();
+    // what a read of each counter must return, from this thread's and the helper's calls alone
+    let mut expect: std::collections::HashMap<u64, Option<i64>> = Default::default();
+    let mut keys: Vec<u64> = Vec::new();
+    let mut hidden: std::collections::HashMap<u64, i64> = Default::default(); // expired value by key
+    let nk = rng.range(1, 3);
+    for k in 0..nk {
+        keys.push(k);
+        let init = rng.range(1, 50) as i64;
+        if rng.chance(2, 3) {
+            // expired on arrival
+            let ts = now_ns() - 4 * 3_600_000_000_000;
+            match store.atomic_increment_with_timestamp_and_ttl(&ckey(k), init, Some(ts), 60) {
+                Ok(_) => {
+                    events.push(format!("P{k},{PAST},{init}"));
+                    expect.insert(k, None);
+                    hidden.insert(k, init);
+                }
+                Err(e) => verdict = format!("FAIL expired-on-arrival-counter-refused {e}"),
+            }
+        } else {
+            match store.atomic_increment(&ckey(k), init) {
+                Ok(v) => {
+                    events.push(format!("I{k},{init}"));
+                    results.push(format!("i:{v}"));
+                    expect.insert(k, Some(init));
+                }
+                Err(e) => verdict = format!("FAIL increment-refused {e}"),
+            }
+        }
+    }
+    if persistent && rng.chance(1, 2) {
+        let _ = store.flush();
+    }
+    {
+        let mut g = ctl.0.lock().unwrap();
+        g.enabled = true;
+        g.release = false;
+        g.parked = None;
+    }
+    let mut last = ctl.0.lock().unwrap().seq;
+    for round in 0..rng.range(1, 4) {
+        if verdict != "ok" {
+            break;
+        }
+        let k = *rng.pick(&keys);
+        let d = rng.range(1, 9) as i64;
+        let done = Arc::new(std::sync::atomic::AtomicBool::new(false));
+        let helper = {
+            let (store, key, done, ctl2) = (store.clone(), ckey(k), done.clone(), ctl.clone());
+            std::thread::spawn(move || {
+                HELPER.with(|h| h.set(true));
+                let r = store.atomic_increment(&key, d);
+                done.store(true, std::sync::atomic::Ordering::SeqCst);
+                ctl2.1.notify_all();
+                r
+            })
+        };
+        // wait for the helper to park or to finish
+        let parked = {
+            let (m, cv) = &**ctl;
+            let start = Instant::now();
+            let mut g = m.lock().unwrap();
+            loop {
+                if g.seq > last && g.parked.is_some() {
+                    last = g.seq;
+                    break true;
+                }
+                if done.load(std::sync::atomic::Ordering::SeqCst) {
+                    break false;
+                }
+                if start.elapsed() > Duration::from_secs(20) {
+                    verdict = "FAIL increment-neither-finished-nor-reached-its-scheduling-point".into();
+                    break false;
+                }
+                g = cv.wait_timeout(g, Duration::from_millis(5)).unwrap().0;
+            }
+        };
+        if parked {
+            events.push(format!("L{round},{k}"));
+            // this thread's calls while the helper holds its stale observation
+            for _ in 0..rng.range(0, 3) {
+                let kk = if rng.chance(3, 4) { k } else { *rng.pick(&keys) };
+                match rng.below(6) {
+                    0 | 1 => {
+                        let v = rng.range(100, 900) as i64;
+                        let future = rng.chance(1, 2);
+                        let r = if future { store.insert_with_ttl(&ckey(kk), &v.to_le_bytes(), 7200) } else { store.insert(&ckey(kk), &v.to_le_bytes()) };
+                        match r {
+                            Ok(_) => {
+                                events.push(format!("P{kk},{},{v}", if future { FUTURE } else { 0 }));
+                                expect.insert(kk, Some(v));
+                            }
+                            Err(e) => verdict = format!("FAIL insert-refused {e}"),
+                        }
+                    }
+                    2 => {
+                        events.push(format!("D{kk}"));
+                        match store.delete(&ckey(kk)) {
+                            Ok(()) => results.push("d:1".into()),
+                            Err(FeoxError::KeyNotFound) => results.push("d:0".into()),
+                            Err(e) => verdict = format!("FAIL delete-error {e}"),
+                        }
+                        expect.insert(kk, None);
+                        hidden.remove(&kk);
+                    }
+                    3 => {
+                        events.push(format!("T{kk},{FUTURE}"));
+                        match store.update_ttl(&ckey(kk), 9000) {
+                            Ok(()) => results.push("t:1".into()),
+                            Err(FeoxError::KeyNotFound) => results.push("t:0".into()),
+                            Err(e) => verdict = format!("FAIL update_ttl-error {e}"),
+                        }
+                    }
+                    _ => {
+                        events.push(format!("G{kk}"));
+                        match store.get(&ckey(kk)) {
+                            Ok(v) if v.len() == 8 => {
+                                let n = i64::from_le_bytes(v[..8].try_into().unwrap());
+                                if expect.get(&kk).copied().flatten() != Some(n) {
+                                    verdict = format!("FAIL read-returned-a-value-that-is-not-the-latest key={kk} got={n}");
+                                }
+                                results.push(format!("g:{n}"));
+                            }
+                            Ok(_) => verdict = "FAIL counter-value-is-not-8-bytes".into(),
+                            Err(FeoxError::KeyNotFound) => {
+                                if expect.get(&kk).copied().flatten().is_some() {
+                                    verdict = format!("FAIL unexpired-key-hidden-or-removed (get: KeyNotFound) key={kk}");
+                                }
+                                results.push("g:-".into());
+                            }
+                            Err(e) => verdict = format!("FAIL get-error {e}"),
+                        }
+                    }
+                }
+            }
+            release(ctl);
+        }
+        let r = helper.join();
+        if parked {
+            events.push(format!("R{round}"));
+        }
+        events.push(format!("I{k},{d}"));
+        match r {
+            Ok(Ok(v)) => {
+                let want = expect.get(&k).copied().flatten().unwrap_or(0) + d;
+                if v != want && verdict == "ok" {
+                    verdict = format!("FAIL increment-lost-or-applied-to-an-expired-value key={k} got={v} expected={want}");
+                }
+                results.push(format!("i:{v}"));
+                expect.insert(k, Some(v));
+                hidden.remove(&k);
+            }
+            Ok(Err(e)) => verdict = format!("FAIL increment-error {e}"),
+            Err(_) => verdict = "FAIL increment-panicked".into(),
+        }
+    }
+    // final reads and table
+    for k in keys.clone() {
+        events.push(format!("G{k}"));
+        match store.get(&ckey(k)) {
+            Ok(v) if v.len() == 8 => {
+                let n = i64::from_le_bytes(v[..8].try_into().unwrap());
+                if expect.get(&k).copied().flatten() != Some(n) && verdict == "ok" {
+                    verdict = format!("FAIL final-read-is-not-the-latest-value key={k} got={n}");
+                }
+                results.push(format!("g:{n}"));
+            }
+            Ok(_) => verdict = "FAIL counter-value-is-not-8-bytes".into(),
+            Err(FeoxError::KeyNotFound) => {
+                if expect.get(&k).copied().flatten().is_some() && verdict == "ok" {
+                    verdict = format!("FAIL unexpired-key-hidden-or-removed (final get) key={k}");
+                }
+                results.push("g:-".into());
+            }
+            Err(e) => verdict = format!("FAIL get-error {e}"),
+        }
+    }
+    let now = now_ns();
+    let class = |exp: u64| if exp == 0 { 0 } else if exp < now { PAST } else { FUTURE };
+    let mut tbl: Vec<(u64, i64, u64)> = Vec::new();
+    for rec in store.verif_snapshot() {
+        let k: u64 = String::from_utf8_lossy(&rec.key[2..]).parse().unwrap_or(99);
+        let v = match store.get(&rec.key) {
+            Ok(v) if v.len() == 8 => i64::from_le_bytes(v[..8].try_into().unwrap()),
+            _ => hidden.get(&k).copied().unwrap_or(-1),
+        };
+        tbl.push((k, v, class(rec.ttl_expiry)));
+    }
+    tbl.sort();
+    let line = format!(
+        "{} final={} n={} removed={}",
+        results.join(";"),
+        tbl.iter().map(|(k, v, e)| format!("{k}:{v}:{e}")).collect::<Vec<_>>().join(";"),
+        store.len(),
+        store.stats().ttl_expired_active
+    );
+    disable(ctl);
+    let case_text = format!("swp {}", events.join(" "));
+    drop(store);
+    let _ = std::fs::remove_file(&path);
+    (case_text, line, verdict)
+}
+
 fn one_case(rng: &mut Rng, case: u64, dir: &str, ctl: &Arc<(Mutex<Ctl>, Condvar)>) -> (String, String, String) {
     let persistent = case % 3 == 2;
     let path = format!("{dir}/dev/swp_{}_{case}.feox", std::process::id());
@@ -356,7 +582,7 @@ pub fn child(opts: &Opts) -> i32 {
     let mut out = Out::new(&dir, &format!("s{sh}"));
     let mut rng = Rng::new(seed.wrapping_mul(104_729).wrapping_add(sh * 7_919));
     for case in 0..n {
-        let (case_text, line, verdict) = one_case(&mut rng, case, &dir, &ctl);
+        let (case_text, line, verdict) = if case % 3 == 1 { lazy_case(&mut rng, case, &dir, &ctl) } else { one_case(&mut rng, case, &dir, &ctl) };
         out.emit3(&case_text, &line, &verdict);
     }
     let total = out.finish();
